@@ -6,6 +6,12 @@ HERE = os.path.dirname(os.path.dirname(os.path.abspath(__file__)))
 
 # id -> (engine, technique, level text, level note, design ref)
 CHECKS = {
+ 'C04': ('E1 state-graph', 'explicit-state exploration of all operation sequences up to a depth on real solver objects (replayed histories, canonical snapshots) against a list-based reference model of counters, monitors and callbacks',
+         'Every history of length <= 4 (quick) / 5 (thorough) over a 10-operation alphabet (Step, Solve, SetEvaluationLimits(new), SetPenalty, SetConstraints, SetStrictRanges, SetEvaluationMonitor new/old, SetGenerationMonitor, Finalize) is executed on each base solver x cost x monitor kind, and after every operation the real call count, monitor contents, iteration count, callback log and energy history are compared with the harness reference model.',
+         'iterations counted by wrapping the bound _Step on the instance; cost alphabet {sphere, steps, infwall}; in-process map; monotonicity judged per segment of unchanged objective (DESIGN section 5)', '3/C04'),
+ 'C05': ('E1 state-graph', 'explicit-state exploration of operation sequences (general alphabet to a depth + complete limit alphabet at every prefix) with a harness-side model of the absolute limits; stop conditions observed at the moment each iteration begins',
+         'All histories <= depth over a 10-op alphabet, plus Step^k . SetEvaluationLimits(g,e,new) . tail for all 40 limit triples, k<=3, 9 tails, on every base solver and two terminations, plus the four scipy-style wrappers over 30 limit pairs; at each iteration start the real generation/evaluation counts, exit flag and termination truth are compared with the modelled limits, and every stop message / warnflag is judged against the final state.',
+         'exit request = the flag the signal handler sets; default limits taken from the documented formula; limits <= 5 plus None', '3/C05'),
  'C17': ('E2 choice-tree', 'exhaustive enumeration of every random answer of the cycle-breaking draws (choice-tree DFS, complete first event + deviation bound) over all member tuples/inputs/iteration caps, on the real combinators',
          'Bounded exhaustive exploration of the real and_/or_/not_ under a harness-owned random source: every configuration of the member alphabet x input grid x maxiter, every answer of the first randomisation event and all later answers within a deviation bound; success-path results re-judged against each member. Couplers and penalty combinators are enumerated over a grid against their literal definitions.',
          'member alphabet of 10 functions on 2-vectors; random() answers from a 5-value alphabet, randint complete; python semantics of list equality', '3/C17'),
